@@ -95,7 +95,10 @@ class FDGen:
         if kind == "range":
             lo = t.intrange(0, 3, "range.lo")
             hi = lo + t.intrange(0, 2, "range.len")
-            return ["range", ["c", lo], ["c", hi]], list(range(lo, hi + 1))
+            node = ["range", ["c", lo], ["c", hi]]
+            if t.chance(1, 3, "range.c.halves"):
+                node.append([t.choice([0, -1], "range.c.dlo"), t.choice([0, 1], "range.c.dhi")])
+            return node, list(range(lo, hi + 1))
         if kind == "range_random":
             a = self.operand(allow_const=False)
             # sometimes empty for some values of the bound: rejection inside sampling
@@ -107,7 +110,11 @@ class FDGen:
                 lo_c = min(self.sup(a)) - t.intrange(0, 1, "range.lo_slack")
                 lo, hi_o = ["c", lo_c], a
                 sup = range(lo_c, max(self.sup(a)) + 1)
-            return ["range", lo, hi_o], list(sup) or [0]
+            node = ["range", lo, hi_o]
+            if t.chance(1, 2, "range.halves"):
+                # non-integer bounds: DiscreteRange(l, h) is uniform on ceil(l)..floor(h)
+                node.append([t.choice([0, -1, 1], "range.dlo"), t.choice([0, 1, -1], "range.dhi")])
+            return node, list(sup) or [0]
         if kind == "uniform_nested":
             a, b = self.operand(allow_const=False), self.operand()
             return ["uniform", [a, b]], self.sup(a) + self.sup(b)
@@ -115,9 +122,13 @@ class FDGen:
             j = t.choice(prim, "resample.which")
             return ["resample", j], self.support[j]
         if kind == "op":
-            sym = t.choice(["+", "-", "*", "//", "%"], "op.sym")
+            sym = t.choice(["-", "+", "*", "//", "%", "-"], "op.sym")
             a = self.operand(allow_const=False)
             b = self.operand() if sym in ("+", "-", "*") else ["c", t.intrange(2, 3, "op.div")]
+            if sym in ("+", "-", "*") and t.chance(1, 2, "op.const_left"):
+                # constant on the left (reflected operators; the identities 0 and 1 are the
+                # interesting ones: `0 - x`, `0 + x`, `1 * x`, `0 * x`)
+                a, b = ["c", t.choice([0, 0, 1, 2], "op.lc")], a
             f = {"+": lambda x, y: x + y, "-": lambda x, y: x - y, "*": lambda x, y: x * y,
                  "//": lambda x, y: x // y, "%": lambda x, y: x % y}[sym]
             return ["op", sym, a, b], [f(x, y) for x in self.sup(a) for y in self.sup(b)]
@@ -213,7 +224,12 @@ def render(prog):
         if k == "options":
             return "Options({" + ", ".join(f"{opnd(o)}: {w}" for o, w in n[1]) + "})"
         if k == "range":
-            return f"DiscreteRange({opnd(n[1])}, {opnd(n[2])})"
+            lo, hi = opnd(n[1]), opnd(n[2])
+            if len(n) > 3:
+                sh = {0: "", 1: " + 0.5", -1: " - 0.5"}
+                lo = f"({lo}{sh[n[3][0]]})" if n[3][0] else lo
+                hi = f"({hi}{sh[n[3][1]]})" if n[3][1] else hi
+            return f"DiscreteRange({lo}, {hi})"
         if k == "resample":
             return f"resample({name_of[n[1]]})"
         if k == "op":
@@ -342,6 +358,11 @@ def worlds(prog):
             return [(val(o, w), Fraction(wt, tot)) for o, wt in n[1]]
         if k == "range":
             lo, hi = val(n[1], w), val(n[2], w)
+            if len(n) > 3:
+                import math
+
+                lo = math.ceil(lo + 0.5 * n[3][0])
+                hi = math.floor(hi + 0.5 * n[3][1])
             if hi < lo:
                 return []
             m = hi - lo + 1
